@@ -1,6 +1,6 @@
 (* C15, stage 6: include / cpp_include / namespace, the item dispatch and the file level -- the full statement. *)
 From PVIdl Require Import Comb Ast Parser Print Proofs.Total Proofs.RoundTok Proofs.RoundPath Proofs.RoundAnn Proofs.RoundTy
-  Proofs.RoundKit Proofs.RoundNum Proofs.RoundConst Proofs.RoundDecl Proofs.RoundItem Proofs.RoundField Proofs.RoundStruct Proofs.RoundFn.
+  Proofs.RoundKit Proofs.Lex Proofs.RoundNum Proofs.RoundConst Proofs.RoundDecl Proofs.RoundItem Proofs.RoundField Proofs.RoundStruct Proofs.RoundFn.
 From Coq Require Import ZifyN ZifyNat ZifyBool.
 From Coq Require String.
 Import String.StringSyntax.
@@ -93,7 +93,7 @@ Proof.
   { split.
     - eapply blank_then_e; eauto with bsdb. intros ->. unfold T. destruct a as [[l bl]|]; cbn [pr_tail2 pr_anns]; [reflexivity|].
       destruct sp as [|[|] bs]; cbn [pr_sep sep_byte]; try reflexivity. apply wstop_nid, Hew. reflexivity.
-    - unfold p_path_sep. rewrite EB. cbn [pbind]. apply pbind_err, dot_err. unfold T. apply tail2_head; try reflexivity.
+    - left. unfold p_path_sep. rewrite EB. cbn [pbind]. apply pbind_err, dot_err. unfold T. apply tail2_head; try reflexivity.
       apply stop_nodot, Hk. }
   rewrite (rt_path lf whole Hlf p _ ltac:(assumption) PF) by (sfx_of S). cbn [pbind].
   rewrite EB. cbn [pbind].
@@ -104,7 +104,31 @@ Qed.
 (* ---------- the item dispatch ---------- *)
 (* what follows an item *)
 Definition item_follow (eof : bool) (it : citem) (k : list byte) : Prop :=
-  (eof = true -> k = []) /\ nosep k = true /\ (item_open it = true -> stop k = true) /\ (item_ends_word it = true -> wstop k = true).
+  (eof = true -> k = []) /\ nosep k = true /\ (item_open it = true -> stop k = true) /\
+  match it with
+  | CIConst c => tail_bare (ck_tail c) = true -> cfollow lf (ck_val c) k
+  | _ => item_ends_word it = true -> wstop k = true
+  end.
+
+(* every item begins with its keyword and a mandatory blank *)
+Lemma item_kw_split eof it X : wf_item eof it = true ->
+  exists b X', pr_item it X = item_word it ++ pr_blank b X' /\ wf_blank b = true /\ b <> [].
+Proof.
+  intros Hw. destruct it as [b l s|b l s|n|t|c|e|kind b s|s]; cbn [pr_item wf_item item_word] in *.
+  - bsplit Hw. eexists b, _. split; [reflexivity|]. split; [assumption|]. destruct b; [discriminate|discriminate].
+  - bsplit Hw. eexists b, _. split; [reflexivity|]. split; [assumption|]. destruct b; [discriminate|discriminate].
+  - unfold wf_namespace, pr_namespace in *. bsplit Hw. eexists (ns_b1 n), _. split; [reflexivity|]. split; [assumption|].
+    destruct (ns_b1 n); [discriminate|discriminate].
+  - unfold wf_typedef, pr_typedef in *. bsplit Hw. eexists (ctd_b1 t), _. split; [reflexivity|]. split; [assumption|].
+    destruct (ctd_b1 t); [discriminate|discriminate].
+  - unfold wf_constant, pr_constant in *. bsplit Hw. eexists (ck_b1 c), _. split; [reflexivity|]. split; [assumption|].
+    destruct (ck_b1 c); [discriminate|discriminate].
+  - unfold wf_enum, pr_enum in *. bsplit Hw. eexists (ce_b1 e), _. split; [reflexivity|]. split; [assumption|].
+    destruct (ce_b1 e); [discriminate|discriminate].
+  - bsplit Hw. eexists b, _. split; [reflexivity|]. split; [assumption|]. destruct b; [discriminate|discriminate].
+  - unfold wf_service, pr_service in *. bsplit Hw. eexists (sv_b1 s), _. split; [reflexivity|]. split; [assumption|].
+    destruct (sv_b1 s); [discriminate|discriminate].
+Qed.
 
 (* every item keyword is followed by a mandatory blank *)
 Lemma kw_blank_nid b X : wf_blank b = true -> negb (is_nil b) = true -> nid (pr_blank b X) = true.
@@ -233,10 +257,33 @@ Proof.
       apply stop_nosep with (k := [c]). cbn. now apply alpha_stop.
     - intros E. match goal with H : negb (item_open it) || is_nil b = true |- _ => rewrite E in H; cbn [negb orb] in H end.
       destruct b; [|discriminate]. cbn [pr_blank]. subst R. apply items_head. apply alpha_stop.
-    - intros E. destruct b as [|a0 b].
-      + match goal with H : is_nil rest || negb (item_ends_word it && is_nil []) = true |- _ => rewrite E in H; cbn in H; rewrite orb_false_r in H end.
-        destruct rest; [|discriminate]. subst R. reflexivity.
-      + unfold wstop. eapply blank_then_e; eauto with bsdb. discriminate. }
+    - assert (Aold : item_ends_word it = true -> (forall c, it <> CIConst c) -> wstop (pr_blank b R) = true).
+      { intros E Hnc. destruct b as [|a0 b].
+        + destruct rest as [|[it' b'] rest']; [subst R; reflexivity|]. exfalso.
+          match goal with H : negb (is_nil []) || item_glue it (item_word it') = true |- _ => unfold item_glue in H; rewrite E in H; cbn [is_nil negb orb] in H end.
+          destruct it; try discriminate. now apply (Hnc c).
+        + unfold wstop. eapply blank_then_e; eauto with bsdb. discriminate. }
+      destruct it as [? ? ?|? ? ?|?|?|c|?|? ? ?|?]; try (intros E; apply Aold; [exact E|discriminate]).
+      intros Eb Ev.
+      assert (NDR : nodot R = true) by (subst R; apply items_head; intros c0 Hc0; apply stop_nodot with (k := [c0]); cbn; now apply alpha_stop).
+      destruct b as [|a0 b].
+      + destruct rest as [|[it' b'] rest'].
+        * subst R. cbn [pr_items pr_blank]. apply (cvfollow_cfollow lf whole Hlf); [|apply sfx_nil|exact Ev].
+          intros _. exists true, [], []. repeat split; reflexivity.
+        * match goal with H : negb (is_nil []) || item_glue (CIConst c) (item_word it') = true |- _ =>
+            unfold item_glue in H; cbn [is_nil negb orb item_ends_word] in H; unfold constant_ends_word in H; rewrite Ev, Eb in H; cbn [andb negb orb] in H end.
+          cbn [pr_blank].
+          match goal with H : wf_items ((it', b') :: rest') = true |- _ => cbn [wf_items] in H; bsplit H end.
+          destruct (item_kw_split _ it' (pr_blank b' (pr_items rest' [])) ltac:(eassumption)) as [bb [X' [EX [Wbb Nbb]]]].
+          assert (ER' : R = item_word it' ++ pr_blank bb X') by (rewrite ER; cbn [pr_items]; exact EX).
+          assert (LX : lstopk (pr_blank bb X') = true).
+          { unfold lstopk. apply blank_then; [exact Wbb|exact lstopc_bs|intros ->; contradiction]. }
+          split; [rewrite ER'; rewrite (cont_ok_local (ck_val c) (item_word it') _ LX); assumption|]. split.
+          -- subst R. unfold hd_ascii. apply items_head. intros c0 Hc0. destruct c0; vm_compute in Hc0 |- *; congruence.
+          -- intros _. change R with (pr_blank [] R). apply (sepfollow_head lf whole Hlf); auto. sfx_of S.
+      + apply (cvfollow_cfollow lf whole Hlf); [|sfx_of S|exact Ev]. intros _. exists (is_nil rest), (a0 :: b), R.
+        split; [reflexivity|]. split; [assumption|]. split; [intros E; destruct rest; [subst R; reflexivity|discriminate]|].
+        split; [exact NR|]. split; [discriminate|]. intros _. exact NDR. }
   assert (EB : exists o, opt (p_blank lf) (pr_blank b R) = POk R o).
   { apply (oblank_e lf whole Hlf (is_nil rest)); auto; [|sfx_of S]. intros E. destruct rest; [|discriminate]. subst R. reflexivity. }
   destruct EB as [ob EB].
